@@ -119,7 +119,7 @@ def frac(x):
 def qlit(x):
     """Coq term of type Q (num # den); the models normalise with Qred / Q2Qc"""
     f = frac(x)
-    return "(%s # %d)" % (zlit(f.numerator), f.denominator)
+    return "(Qmake %s %d)" % (zlit(f.numerator), f.denominator)
 
 
 def gz(z):
